@@ -189,6 +189,9 @@ ObjSchemas ==
     Sc("allOf", O(KV("allOf", A(<<PetRef, O(TObj @@ KV("properties", O(KV("b", O(KV("type", S("integer")))))))>>))), 1),
     Sc("nullableObj", O(TObj @@ KV("x-nullable", B(TRUE))), 2),
     Sc("nullableStr", O(KV("type", S("string")) @@ KV("x-nullable", B(TRUE))), 1),
+    \* nullable AND enumerated: the enum is the enum (null is admitted by the flag, not by a new member)
+    Sc("nullableEnum", O(KV("type", S("string")) @@ KV("x-nullable", B(TRUE)) @@ KV("enum", A(<<S("ab"), S("b")>>))), 1),
+    Sc("itemsNullableEnum", O(KV("type", S("array")) @@ KV("items", O(KV("type", S("string")) @@ KV("x-nullable", B(TRUE)) @@ KV("enum", A(<<S("ab")>>))))), 2),
     Sc("readOnlyProp", O(TObj @@ PropA(O(KV("type", S("string")) @@ KV("readOnly", B(TRUE))))), 2),
     Sc("propRef", O(TObj @@ PropA(PetRef)), 2),
     Sc("itemsRef", O(KV("type", S("array")) @@ KV("items", PetRef)), 2),
@@ -269,6 +272,8 @@ Scopes == O(KV("read", S("read things")) @@ KV("write", S("write things")))
 SecSchemes ==
    {[n |-> "basicAuth", v |-> O(KV("type", S("basic"))), r |-> A(<<>>)],
     [n |-> "keyHeader", v |-> O(KV("type", S("apiKey")) @@ KV("in", S("header")) @@ KV("name", S("X-Key"))), r |-> A(<<>>)],
+    \* an API key that travels in the Authorization header is still an API key (whatever a client puts there: "Token abc", ...)
+    [n |-> "keyAuthz", v |-> O(KV("type", S("apiKey")) @@ KV("in", S("header")) @@ KV("name", S("Authorization"))), r |-> A(<<>>)],
     [n |-> "keyQuery", v |-> O(KV("type", S("apiKey")) @@ KV("in", S("query")) @@ KV("name", S("key"))), r |-> A(<<>>)],
     [n |-> "oaImplicit", v |-> O(KV("type", S("oauth2")) @@ KV("flow", S("implicit"))
                                   @@ KV("authorizationUrl", S("https://h.example/auth")) @@ KV("scopes", Scopes)), r |-> A(<<S("read")>>)],
@@ -282,7 +287,7 @@ SecSchemes ==
 SecAtoms ==
    {Atom("sec", s.n \o "@" \o w, "sec:" \o s.n, w, s.n, s.v, s.r,
          IF <<s.n, w>> \in {<<"basicAuth", "global">>, <<"keyHeader", "op">>, <<"oaImplicit", "global">>, <<"oaCode", "op">>,
-                             <<"oaPassword", "none">>, <<"oaApp", "global">>} THEN 1 ELSE 2)
+                             <<"oaPassword", "none">>, <<"oaApp", "global">>, <<"keyAuthz", "global">>} THEN 1 ELSE 2)
       : s \in SecSchemes, w \in {"global", "op", "none"}}
    \cup {Atom("secnone", "security:[]@op", "secnone", "op", "", Nul, Nul, 1)}
 
